@@ -7,6 +7,7 @@ import tools
 from framework import Issue
 from tools import run_async, yields
 from world import asyncstdlib
+from world import UserExc as world_UserExc
 
 RULE = (
     "metamorphic: every tool and aggregation x parameter grid x item sequences up to length L is run under EVERY assignment of "
@@ -64,9 +65,81 @@ def _run_groupby(case, kind, flavour):
     return out
 
 
+def _awaitify_cases(tier):
+    """every flavour x every sequence of invocations (ok / fail) on ONE awaitify wrapper"""
+    n = 4 if tier == "quick" else 6
+    for fl in FLAV:
+        for ln in range(1, n + 1):
+            for pat in itertools.product(("ok", "fail"), repeat=ln):
+                yield {"tool": "awaitify", "family": "awaitify", "flavour": fl, "srcs": [], "params": {},
+                       "behs": [[b, 10 + i] for i, b in enumerate(pat)]}
+
+
+def _run_awaitify(case):
+    import inspect as _inspect
+    from asyncstdlib._core import awaitify
+    from tools import make_fn
+    from world import drive, exc_name
+    log = []
+    fails = [i for i, b in enumerate(case["behs"]) if b[0] == "fail"]
+    state = {"n": 0}
+
+    def base_body(args):
+        i = state["n"]
+        state["n"] += 1
+        if case["behs"][i][0] == "fail":
+            raise world_UserExc(case["behs"][i][1])
+        return case["behs"][i][1]
+    fl = case["flavour"]
+    if fl == "def":
+        def f(*a):
+            return base_body(a)
+    elif fl == "async":
+        async def f(*a):
+            return base_body(a)
+    elif fl == "partial":
+        import functools as _ft
+
+        async def g(_t, *a):
+            return base_body(a)
+        f = _ft.partial(g, "t")
+    elif fl == "obj":
+        class O:
+            def __call__(self, *a):
+                async def co():
+                    return base_body(a)
+                return co()
+        f = O()
+    else:
+        class OX:
+            def __call__(self, *a):
+                if case["behs"][state["n"]][0] == "fail":
+                    return base_body(a)
+                async def co():
+                    return base_body(a)
+                return co()
+        f = OX()
+    w = awaitify(f)
+    out = []
+
+    async def one():
+        return await w(1)
+    for _ in case["behs"]:
+        res = drive(one())
+        if res.exc is not None:
+            out.append(["exc", getattr(res.exc, "eid", None)] if hasattr(res.exc, "eid") else ["libexc", type(res.exc).__name__])
+        elif _inspect.isawaitable(res.value):
+            res.value.close()
+            out.append(["unawaited"])
+        else:
+            out.append(["val", res.value])
+    return out
+
+
 def cases(tier, rng):
     L = 2 if tier == "quick" else 3
     yield {"tool": "__all__", "family": "types", "srcs": [], "params": {}}
+    yield from _awaitify_cases(tier)
     yield from _groupby_cases(tier)
     n = 0
     for case in s1.base_cases(tier, rng, ["list"], s1.cons_exhaust, maxlen=L):
@@ -137,6 +210,9 @@ def _types_check():
 
 
 def observe(case):
+    if case.get("family") == "awaitify":
+        out = _run_awaitify(case)
+        return {"out": out, "async": {"out": ["returned", ["n"]], "vis": [["yield", ["i", 1]]]}}
     if case.get("family") == "groupby":
         base, diffs, n = None, [], 0
         for kind in KINDS:
@@ -165,6 +241,8 @@ def observe(case):
 
 
 def model_request(case):
+    if case.get("family") == "awaitify":
+        return {"m": "awaitify", "flavour": case["flavour"], "behs": case["behs"]}
     if case.get("family") in ("types", "groupby") or case["tool"] in s1.NO_MODEL:
         return None
     return tools.model_request(case)
@@ -172,6 +250,14 @@ def model_request(case):
 
 def judge(case, obs, model):
     issues = []
+    if case.get("family") == "awaitify":
+        want = [["val", b[1]] if b[0] == "ok" else ["exc", b[1]] for b in case["behs"]]
+        if obs["out"] != want:
+            issues.append(Issue("oracle", {"flavour": case["flavour"], "got": obs["out"], "expected": want},
+                                "awaitify-changes-result:" + case["flavour"]))
+        if model is not None and model.get("out") != obs["out"]:
+            issues.append(Issue("A", {"asyncstdlib": obs["out"], "model": model.get("out", model)}))
+        return issues
     if case.get("family") == "types":
         if obs["types"]["plain_results"]:
             issues.append(Issue("oracle", obs["types"], "plain-value-returned"))
@@ -196,11 +282,13 @@ def features(case, obs):
         return ["types"]
     if case.get("family") == "groupby":
         return ["tool=groupby", "variants=%d" % obs["variants"]]
+    if case.get("family") == "awaitify":
+        return ["tool=awaitify", "flavour=" + case["flavour"]]
     return ["tool=" + case["tool"], "variants=%d" % obs["variants"], "faulty" if case.get("faulty") else "fault-free"]
 
 
 def nontrivial(case, obs):
-    return case.get("family") in ("types", "groupby") or bool(obs["base"][0]) or obs["base"][1][0] in ("returned", "raised")
+    return case.get("family") in ("types", "groupby", "awaitify") or bool(obs["base"][0]) or obs["base"][1][0] in ("returned", "raised")
 
 
 def search_cases(broken, rng):
